@@ -144,7 +144,8 @@ class FnTaint:
                         continue
                     c = ncallee(t) or ""
                     hit = None
-                    if READ_PRIM.search(c):
+                    if READ_PRIM.search(c) or (c.startswith("binrw::") and READ_PRIM.search(mirg.callee_decl(t) or "")):
+                        # (binrw's own impls for primitives / arrays / tuples resolve to `binrw::binread::impls::<impl BinRead for u16>::read_options`)
                         hit = "read " + c.split("::")[-1]
                     elif c in w.ret_taint:
                         hit = "ret " + c.split("::")[-1]
@@ -194,9 +195,17 @@ class FnTaint:
             return "field " + self._field_name(op[1])
         return None
 
-    def sanitised(self, op, bb):
-        """generous: any dominating ordered comparison on the value / an ancestor / a sibling copy, or a sanitising call in its derivation"""
+    def sanitised(self, op, bb, strict=False):
+        """generous: any dominating ordered comparison on the value / an ancestor / a sibling copy, or a sanitising call in its derivation.
+        strict=True: "related value" means sharing an *integer-typed* ancestor (not merely the same struct reference / iterator)"""
         f = self.fn
+        _INT = ("u8", "u16", "u32", "u64", "usize", "i8", "i16", "i32", "i64", "isize", "u128", "i128")
+
+        def rel(sa, sb):
+            common = sa & sb
+            if not strict:
+                return bool(common)
+            return any((f.crate.ty(f.mir["locals"][x][0]) or "") in _INT for x in common)
         if self.cfg is None:
             self.cfg = mirg.Cfg(f)
             self.du = mirg.DefUse(f)
@@ -247,11 +256,13 @@ class FnTaint:
                                 if ol in anc:
                                     return "dominating comparison (bb%d)" % i
                                 a2, _, _ = self.du.slice_back(ol, depth=6)
-                                if a2 & anc - set(range(1, f.mir["argc"] + 1)) or (a2 & anc):
+                                if rel(a2, anc):
                                     return "dominating comparison on a related value (bb%d)" % i
                                 if o2[0] in ("c", "m") and pproj(o2[1]) and (plocal(o2[1]), tuple(p for p in pproj(o2[1]) if isinstance(p, int))) in fields:
                                     return "dominating comparison on the same field (bb%d)" % i
                                 for a3 in a2:
+                                    if strict and (f.crate.ty(f.mir["locals"][a3][0]) or "") not in _INT:
+                                        continue
                                     for _b3, k3, p3 in self.du.defs.get(a3, []):
                                         if k3 == "assign":
                                             for o3 in mirg.rvalue_operands(p3[2]):
@@ -276,7 +287,7 @@ class FnTaint:
                             if al_ in anc:
                                 return "dominating check call (bb%d)" % i
                             a4, _, _ = self.du.slice_back(al_, depth=4)
-                            if (a4 & anc) - set(range(1, f.mir["argc"] + 1)):
+                            if rel(a4 - set(range(1, f.mir["argc"] + 1)), anc):
                                 return "dominating check call on a related value (bb%d)" % i
         return None
 
